@@ -217,6 +217,23 @@ CLAIMED = {
         note=TB + "Partial: asyncio's Event waiter order and the real transports' buffering are trusted; timer ties (a stall ending exactly when another event is due) are avoided by the generator.",
         technique="Coq proof (LTS invariants by induction over label lists; counting argument for at-most-once) + behavioural probe fact + vm_compute scenario correspondence",
         ref='6/C15'),
+    'C09': dict(
+        text=("Proof (partial): on an LTS of TaskGroup with one joining task (join / async with / body raised), abstract "
+              "members that finish whenever the environment lets them (arbitrarily slow reaction to cancellation, any outcome, "
+              "spawning further members at any time), every wait policy and the joining task cancelled at any instant, for EVERY "
+              "label sequence: whenever the join has finished (joined set - returning or re-raising the CancelledError that "
+              "interrupted its wait for the next member) every task ever placed in the group has finished; a joining task that "
+              "ends without CancelledError has completed the join; once joined, additions are refused and the set of members "
+              "never changes again; every unfinished member is always tracked in _pending or daemons. Two model facts (the "
+              "finally clause re-cancels members added during cancellation; a joined group refuses tasks) are probed on the "
+              "running class on every run. On the original tree the invariant failed for a member spawned while the others were "
+              "being cancelled (F11, repaired by a fix: commit). REFUTED part, proved as C09_refuted_*: the joining task "
+              "cancelled while join's finally / cancel_remaining waits ends at once with members running (known finding F12). "
+              "Correspondence: the real TaskGroup driven one loop handle at a time; after every handle the group state and the "
+              "ready queue are compared with the model; the oracle is evaluated at the label at which the joining task ends."),
+        note=TB + "Partial: one joining task, no concurrent next_done consumer; asyncio's callback scheduling order, Task.cancel and Semaphore hand-over are modelled facts tied by the per-handle correspondence only.",
+        technique="Coq proof (reachable-state invariant by induction over label lists; generic preservation lemma for the joining coroutine; refutation witnesses by vm_compute) + behavioural probe facts + per-handle vm_compute trace correspondence on a single-step event loop",
+        ref='6/C09'),
 }
 
 REASONS = {}
